@@ -20,6 +20,7 @@ pub fn plan() -> Plan {
         soft_s: (25, 120),
         exhaustive: Some(true),
         min_evaluations: 50,
+        extra: None,
     }
 }
 
